@@ -24,6 +24,11 @@ fn main() {
     let mut st = ohmc::props::structured::shapes(kmax);
     st.extend(ohmc::props::structured::programs(kmax));
     ctx.run_slice(Slice::new(format!("structured[sizes 1..{}: {} diagrams]", kmax, st.len()), st.len() as u64, |i, loc| check::<B>(&st[i as usize].1, loc)));
+    // the same families at large size parameters
+    let sizes: Vec<usize> = if quick { vec![33, 64, 65, 129] } else { vec![33, 64, 65, 129, 255, 256, 257, 513] };
+    let mut big = ohmc::props::structured::shapes_at(&sizes, false);
+    big.extend(ohmc::props::structured::programs_at(&sizes, false));
+    ctx.run_slice(Slice::new(format!("structured-large[sizes {:?}: {} diagrams]", sizes, big.len()), big.len() as u64, |i, loc| check::<B>(&big[i as usize].1, loc)));
     let meta = Meta {
         rule: "every open hypergraph of the listed universes (isolated nodes, dangling nodes, repeated incidences, parallel connections of multiplicity up to 4-6) and every node index: is_acyclic (on the hypergraph and on the open hypergraph), is_monogamous, in_degree, out_degree against definitions by closure and counting; any panic is a violation; run under the checked (overflow checks, debug assertions) and the release-like profile; non-trivial = has an isolated node, a degree >= 3, a cycle, or is monogamous; plus structured families of larger diagrams, enumerated completely for every size parameter up to the stated bound and in five numberings (fan-out/fan-in, k parallel operations, chains, stars, cycles with tails, diamonds, multiplicity k, operations whose predecessors sit at depths j and k of a chain, one node read k times)".into(),
         bounds: "quick: <=3 nodes, <=2 hyperedges of arity <=2, interfaces <=2; thorough adds 4 nodes, 3 hyperedges, arity 3".into(),
